@@ -279,8 +279,7 @@ class GetMhRatio(Contract):
 
     def ensures(self, s, result):
         o, st = s.old, s.me.state
-        return [('ratio = exp(clip(logJ(fwd(theta_n)) - logJ(fwd(theta_n-1)) + logpost_n - logpost_n-1)): posterior ratio times the ratio of the '
-                 'transform\'s Jacobians at the proposed and current points (in transformed space)',
+        return [('ratio = exp(clip(logJ(fwd(th_n)) - logJ(fwd(th_n-1)) + post_n - post_n-1))',
                  T(result) == ratio_spec(self.bounded, o.pn, o.pp, o.ln, o.lp)),
                 ('the sampler state is not modified', z3.And(st['params'].a == o.arrays[0], st['logprior'].a == o.arrays[1],
                                                              st['logposterior'].a == o.arrays[2], T(st['n_samples']) == s.n0))]
@@ -318,8 +317,7 @@ class PropagateState(Contract):
     def ensures(self, s, result):
         c = s.old.cur
         want = BACK(MVN(FWD(c), z3.IntVal(0))) if self.bounded else MVN(c, z3.IntVal(0))
-        return [('proposal = back-transform of a Gaussian step around the transformed current state (random walk in transformed space)'
-                 if self.bounded else 'proposal = Gaussian step around the current state', T(result) == want),
+        return [('proposal = back(Gaussian step around fwd(current))' if self.bounded else 'proposal = Gaussian step around current', T(result) == want),
                 ('exactly one Gaussian draw is consumed', z3.BoolVal(s.me.random_state.k == 1))]
 
 
@@ -396,8 +394,7 @@ class ProcessSimulated(Contract):
         accept = z3.Or(n == 0, u < z3.If(ratio >= 1, z3.RealVal(1), ratio))
         kept = z3.And(P1[n] == o.P[n], LP1[n] == o.LP[n], LQ1[n] == post_new)
         restored = z3.And(P1[n] == o.P[n - 1], LP1[n] == o.LP[n - 1], LQ1[n] == o.LQ[n - 1])
-        out = [('the candidate is accepted iff u < min(1, posterior ratio x Jacobian ratio) [always on the initialisation round]: '
-                'accepted = row n keeps the candidate with logposterior = loglik + logprior; rejected = row n restored to row n-1',
+        out = [('accept iff u < min(1, ratio): row n kept (post = loglik + prior) / restored to row n-1',
                 z3.If(accept, kept, restored)),
                ('n_samples advances by one', T(st['n_samples']) == n + 1),
                ('no other row of the chain is touched',
@@ -473,7 +470,7 @@ class InitRound(Contract):
         """rows n0..n-1 repeat the current state (row n0-1); every other row below n0 / from n on is as at entry"""
         o, n0 = s.old, s.n0
         facts = [('n0 <= n_samples <= len(chain)', z3.And(n0 <= n, n <= s.N)),
-                 ('rows n0..n-1 (rejected without simulation) repeat parameters and log-prior of the current state',
+                 ('rows n0..n-1 (rejected, not simulated) repeat params / log-prior of the current state',
                   forall_range(n0, n, lambda k: z3.And(P1[k] == o.P[n0 - 1], LP1[k] == o.LP[n0 - 1]), 'k')),
                  ('parameters / log-prior outside n0..n-1 are as at entry',
                   forall_range(0, s.N, lambda k: z3.Implies(z3.Or(k < n0, k >= n), z3.And(P1[k] == o.P[k], LP1[k] == o.LP[k])), 'k'))]
@@ -513,17 +510,16 @@ class InitRound(Contract):
             started = z3.And(n < s.N, finite(lp), P1[n] == prop, LP1[n] == lp, T(st['n_sim_round']) == 0)
         else:
             started = z3.BoolVal(False)
-        out.append(('at exit either the chain is complete, or row n holds a proposal INSIDE the prior support (finite log-prior) and a new data '
-                    'collection round starts (n_sim_round = 0)', z3.Or(n == s.N, started)))
-        out.append(('every proposal outside the prior support was rejected without simulating: parameters / log-prior of all rows but n0..n are as at entry',
+        out.append(('exit: chain complete, or row n = proposal with finite log-prior and n_sim_round = 0', z3.Or(n == s.N, started)))
+        out.append(('params / log-prior of all rows but n0..n as at entry',
                     forall_range(0, s.N, lambda k: z3.Implies(z3.Or(k < s.n0, k > n), z3.And(P1[k] == o.P[k], LP1[k] == o.LP[k])), 'k')))
         if not self.misspec:
             out.append(rows[3])
-            out.append(('log-posterior outside n0..n-1 is as at entry (row n is filled only after simulating)', rows[4][1]))
+            out.append(('log-posterior outside n0..n-1 as at entry (row n is filled only after simulating)', rows[4][1]))
         else:
             out.append(rows[3])
         out.append(('the round objective drops by the number of rejected proposals', T(ob['round']) == o.R - (n - s.n0)))
-        out.append(('no simulation is counted or submitted: n_sim, n_batches are the same objects; n_sim_round only reset when a round starts',
+        out.append(('no simulation counted: n_sim, n_batches untouched; n_sim_round only reset at a round start',
                     z3.And(z3.BoolVal(st['n_sim'] is o.n_sim and st['n_batches'] is o.n_batches),
                            z3.Or(T(st['n_sim_round']) == o.nsr, T(st['n_sim_round']) == 0))))
         return out
